@@ -157,13 +157,13 @@ pub fn spec_settings_frame_dec(s: &[u8]) -> Option<(SpecSettings, usize, bool)> 
     }
 }
 /// What a receiver must do with a SETTINGS payload (RFC 9114 §7.2.4, §7.2.4.1), reading pairs in wire
-/// order; `known` = the identifiers the receiver understands.  The first offending pair decides:
+/// order; `known(id)` = the receiver understands identifier `id`.  The first offending pair decides:
 /// Malformed (payload ends inside a pair) | Reserved(id) (HTTP/2-reserved identifier) |
 /// Repeated(id) (an understood identifier for the second time) | Ok (end of payload reached).
 /// Identifiers the receiver does not understand are ignored, however often they occur.
 #[derive(Clone, Copy, PartialEq, Eq, Debug)]
 pub enum SpecSettingsVerdict { Ok, Malformed, Reserved(u64), Repeated(u64) }
-pub fn spec_settings_verdict(s: &[u8], known: &[u64]) -> (SpecSettingsVerdict, SpecSettings) {
+pub fn spec_settings_verdict<K: Fn(u64) -> bool>(s: &[u8], known: K) -> (SpecSettingsVerdict, SpecSettings) {
     // `applied` = the understood (id, value) pairs accepted so far, in wire order
     let mut applied = SpecSettings { pairs: [(0, 0); SPEC_SETTINGS_MAX_PAIRS], n: 0, minimal: true };
     let mut at = 0usize;
@@ -175,13 +175,7 @@ pub fn spec_settings_verdict(s: &[u8], known: &[u64]) -> (SpecSettingsVerdict, S
         if spec_is_h2_reserved_setting(id) {
             return (SpecSettingsVerdict::Reserved(id), applied);
         }
-        let mut is_known = false;
-        let mut k = 0;
-        while k < known.len() {
-            if known[k] == id { is_known = true; }
-            k += 1;
-        }
-        if is_known {
+        if known(id) {
             let mut j = 0;
             while j < applied.n {
                 if applied.pairs[j].0 == id { return (SpecSettingsVerdict::Repeated(id), applied); }
